@@ -384,7 +384,7 @@ PLAN['C17']['rule'] = (
     'earlier in the behaviour (proofs, hash lists, update data) is re-compared after every later call. Non-trivial: a '
     'state-changing or proving step; distinct by (witness history, step).')
 PLAN['C17']['bounds'] = {'quick': 'core: n<=5, undo depth 1, one round trip; light client: n<=5 undo depth 1; proof operations: all states n<=5; partial forest: n<=4',
-                         'thorough': 'core: n<=6, undo depth 2; light client: n<=5 depth 2; proof operations: n<=6; partial forest: n<=5'}
+                         'thorough': 'core: n<=6, undo depth 1; light client: n<=5 depth 2; proof operations: n<=6; partial forest: n<=5'}
 
 
 def serial_spec(name, decoder, frames, negative=False):
